@@ -338,6 +338,9 @@ func runC10(col *Collector, tier string, seed int64) {
 	for _, taskLevel := range []bool{false, true} {
 		sharedVarCase(col, taskLevel)
 	}
+	for form := 0; form < 4; form++ {
+		stageVarsAcrossPipelinesCase(col, form)
+	}
 	parallel(total, 16, func(i int) {
 		switch {
 		case i < len(vs):
@@ -350,6 +353,33 @@ func runC10(col *Collector, tier string, seed int64) {
 		}
 	})
 	col.res.Exhaustive = true
+}
+
+// the stage's variables win for EVERY execution in a process: two pipelines (and a third that includes both) whose
+// stages have the same (default) name and use the same task with different stage variables, run in one invocation
+func stageVarsAcrossPipelinesCase(col *Collector, form int) {
+	dir := newScratchDir("c10p")
+	defer os.RemoveAll(dir)
+	trace := filepath.Join(dir, "trace")
+	var b strings.Builder
+	fmt.Fprintf(&b, "tasks:\n  greet:\n    variables: {who: task}\n    command:\n      - 'echo \"who={{.who}}\" >> %s'\n", trace)
+	b.WriteString("pipelines:\n  p1:\n    - task: greet\n      variables: {who: one}\n  p2:\n    - task: greet\n      variables: {who: two}\n")
+	b.WriteString("  p3:\n    - task: greet\n  outer:\n    - pipeline: p1\n    - pipeline: p2\n      depends_on: [p1]\n    - pipeline: p3\n      depends_on: [p2]\n")
+	os.WriteFile(filepath.Join(dir, "tasks.yaml"), []byte(b.String()), 0644)
+	args := [][]string{{"p1", "p2", "p3", "greet"}, {"outer"}, {"run", "p2", "p1", "p3"}, {"p3", "p1", "p2"}}[form]
+	want := []string{"who=one,who=two,who=task,who=task", "who=one,who=two,who=task", "who=two,who=one,who=task", "who=task,who=one,who=two"}[form]
+	res := runTaskctl(dir, nil, 30*time.Second, append([]string{"--output", "raw"}, args...)...)
+	got := strings.Join(readTrace(trace), ",")
+	cs := Case{Tags: []string{"stage-vars-across-pipelines"}, NonTrivial: true,
+		Replay: fmt.Sprintf("pipelines p1/p2/p3 each with the unnamed stage `- task: greet` (stage variables who=one / who=two / none; task-level who=task): taskctl %s", strings.Join(args, " "))}
+	cs.Impl = got
+	switch {
+	case res.panicked || res.timedOut || res.exit != 0:
+		cs.Fail, cs.Sig = fmt.Sprintf("taskctl exit=%d timeout=%v: %s", res.exit, res.timedOut, lastLines(res.stderr, 2)), "c10-run-failed"
+	case got != want:
+		cs.Fail, cs.Sig = fmt.Sprintf("commands printed %s, the stage's variables over the task's give %s", got, want), "c10-precedence"
+	}
+	col.Add(cs)
 }
 
 // stage a defines V, stage b (same task, runs after a) does not, then the task is run directly: b and the
